@@ -259,6 +259,18 @@ def eval_int(e, env, ty=None):
         v = a + b if e[1].startswith('Add') else a - b
         if t is not None and _wrap(v, t) != v: raise Overflow('%s overflows %s' % (e[1], t))
         return v, t
+    if k == 'op' and e[1] in ('Mul', 'MulWithOverflow', 'Div', 'Rem', 'Shr', 'Shl', 'BitAnd'):
+        a, ta = eval_int(e[2], env); b, tb = eval_int(e[3], env, ta)
+        t = ta or tb
+        if e[1] in ('Div', 'Rem') and b == 0: raise Overflow('division by zero')
+        if e[1].startswith('Mul'): v = a * b
+        elif e[1] == 'Div': v = abs(a) // abs(b) * (1 if (a >= 0) == (b >= 0) else -1)
+        elif e[1] == 'Rem': v = abs(a) % abs(b) * (1 if a >= 0 else -1)
+        elif e[1] == 'Shr': v = a >> b
+        elif e[1] == 'Shl': v = a << b
+        else: v = a & b
+        if t is not None and _wrap(v, t) != v: raise Overflow('%s overflows %s' % (e[1], t))
+        return v, t
     if k == 'call' and e[1].endswith('::clamp') and len(e) == 5:
         v, t = eval_int(e[2], env); lo, _ = eval_int(e[3], env, t); hi, _ = eval_int(e[4], env, t)
         return max(lo, min(hi, v)), t
